@@ -135,32 +135,85 @@ theorem positional_tail_verbatim (tbl : Table) (acc : Accepts) (files : Files) (
     run tbl acc files seen a .collect pos = .ok { a with rest := a.rest ++ pos } :=
   run_collect tbl acc files seen a pos
 
-/-! ## final contents of the option variables -/
+/-- a lone `-` where an option is expected is the first positional (the conventional name of standard input): it
+    and everything behind it is returned verbatim -/
+theorem bare_dash_is_first_positional (tbl : Table) (acc : Accepts) (files : Files) (seen : List Str) (a : PAcc)
+    (args : List Str) :
+    run tbl acc files seen a .look ([45] :: args) = .ok { a with rest := a.rest ++ [45] :: args } :=
+  run_bare_dash tbl acc files seen a args
 
-/-- **unmentioned options keep their defaults**: an option that no assignment names ends with the same contents as
-    after parsing no arguments at all -/
-theorem unmentioned_untouched (k : Kind) (defs : List Str) (id : Nat) (sets : List (Nat × Str))
-    (h : ∀ s ∈ sets, s.1 ≠ id) : finalRaws k defs id sets = finalRaws k defs id [] :=
-  finalRaws_unmentioned k defs id sets h
+/-! ## final contents of the option variables
 
-/-- … and a scalar option initialised with one value then still holds that value -/
-theorem unmentioned_scalar (k : Kind) (hs : k.slice = false) (hl : k.base ≠ .log) (d : Str) (id : Nat) :
-    finalRaws k [d] id [] = [d] := by
-  have hl' : (k.base == Base.log) = false := by simpa using hl
-  simp [finalRaws, hs, hl', assigned]
+`Cmd.setVar` transcribes `GeneralValue.Set` (values.go) case by case; `Cmd.applySets` applies the `Set` calls of a run,
+in order, to the store of option variables, and `Cmd.renderStore` — what the driver prints and the check compares with
+the Go variables — reads that store.  The integer, bool and string conversions are the model's own (`parseInt`,
+`parseUint`, `parseBool`); float and duration results are the parameter `orc`. -/
 
-/-- **last assignment wins** for a scalar option -/
-theorem last_assignment_wins (k : Kind) (hs : k.slice = false) (hl : k.base ≠ .log) (defs : List Str) (id : Nat)
-    (s1 s2 : List (Nat × Str)) (v : Str) (h : ∀ s ∈ s2, s.1 ≠ id) :
-    finalRaws k defs id (s1 ++ (id, v) :: s2) = [v] :=
-  finalRaws_last k hs hl defs id s1 s2 v h
+/-- one `Set` call, uniformly: the conversion of the kind decides acceptance and the stored value; a scalar variable
+    is overwritten, a slice variable (and the harness's logging value) is appended to -/
+theorem set_semantics (orc : Oracle) (k : Kind) (cur : Var) (raw : Str) :
+    setVar orc k cur raw =
+      (typed orc k.base raw).map (fun t => if k.slice || k.base == .log then cur ++ [t] else [t]) :=
+  setVar_eq orc k cur raw
 
-/-- **slice options append**: initial contents, then every assigned value in order -/
-theorem slice_appends (k : Kind) (hk : k.slice = true) (defs : List Str) (id : Nat) (s1 s2 : List (Nat × Str))
-    (v : Str) :
-    finalRaws k defs id (s1 ++ (id, v) :: s2) = defs ++ assigned id s1 ++ v :: assigned id s2 := by
-  rw [finalRaws_append k (Or.inl hk), assigned_append, assigned_cons_self]
-  simp
+/-- every option variable sees exactly the `Set` calls that name it, in the order of the run, starting from its
+    contents before the run -/
+theorem variable_is_fold_of_its_sets (orc : Oracle) (incl : Bool) (decls : List Decl) (sets : List (Nat × Str))
+    (st : Store) (id : Nat) :
+    (applySets orc incl decls st sets).get id = (assigned id sets).foldl (stepVar orc incl decls id) (st.get id) :=
+  get_applySets orc incl decls sets st id
+
+/-- **unmentioned options keep their contents**: a variable no assignment names is exactly what it was -/
+theorem unmentioned_untouched (orc : Oracle) (incl : Bool) (decls : List Decl) (sets : List (Nat × Str))
+    (st : Store) (id : Nat) (h : ∀ s ∈ sets, s.1 ≠ id) :
+    (applySets orc incl decls st sets).get id = st.get id := by
+  rw [get_applySets, assigned_unmentioned id sets h]
+  rfl
+
+/-- … which for a declared option is the caller's initial contents -/
+theorem initial_contents (orc : Oracle) (decls : List Decl) (i : Nat) (d : Decl) (h : decls[i]? = some d) :
+    (initStore orc decls).get (firstUserId + i) = initVar orc d.kind d.defs :=
+  get_initStore orc decls i d h
+
+/-- **a scalar variable ends with the value of its LAST successful `Set`** (and with its old contents if there was
+    none) -/
+theorem scalar_last_successful_set (orc : Oracle) (incl : Bool) (decls : List Decl) (sets : List (Nat × Str))
+    (st : Store) (id : Nat) (k : Kind) (hk : kindOfId incl decls id = some k)
+    (hs : (k.slice || k.base == .log) = false) :
+    (applySets orc incl decls st sets).get id =
+      lastOr ((assigned id sets).filterMap (typed orc k.base)) (st.get id) := by
+  rw [get_applySets, foldl_scalar_kind orc incl decls id k hk hs]
+
+/-- **last assignment wins**: whatever was assigned before, after `… (id, v) …` with no later assignment to `id` the
+    scalar variable holds exactly the typed value of `v` -/
+theorem last_assignment_wins (orc : Oracle) (incl : Bool) (decls : List Decl) (st : Store) (id : Nat) (k : Kind)
+    (hk : kindOfId incl decls id = some k) (hs : (k.slice || k.base == .log) = false)
+    (s1 s2 : List (Nat × Str)) (v : Str) (t : String) (hv : typed orc k.base v = some t)
+    (h : ∀ s ∈ s2, s.1 ≠ id) :
+    (applySets orc incl decls st (s1 ++ (id, v) :: s2)).get id = [t] := by
+  rw [scalar_last_successful_set orc incl decls _ st id k hk hs, assigned_append, assigned_cons_self,
+    assigned_unmentioned id s2 h]
+  simp [lastOr, List.filterMap_append, hv]
+
+/-- **slice options append**: the old contents, then the typed value of every accepted assignment, in order -/
+theorem slice_appends (orc : Oracle) (incl : Bool) (decls : List Decl) (sets : List (Nat × Str))
+    (st : Store) (id : Nat) (k : Kind) (hk : kindOfId incl decls id = some k)
+    (hs : (k.slice || k.base == .log) = true) :
+    (applySets orc incl decls st sets).get id = st.get id ++ (assigned id sets).filterMap (typed orc k.base) := by
+  rw [get_applySets, foldl_append_kind orc incl decls id k hk hs]
+
+/-- what the check compares with the Go variables after a valid vector: the store after exactly the spelled
+    assignments, in order, and the positionals -/
+theorem variables_after_parse (orc : Oracle) (incl : Bool) (decls : List Decl) (files : Files) (es : Entries)
+    (hb : build incl decls = some es) (sps : List Spell)
+    (hv : ∀ sp ∈ sps, sp.Valid (tableOf es) (acceptsOf orc incl decls)) (t : Tail) (ht : t.OK)
+    (hu : ∀ s ∈ sps.flatMap Spell.sets, firstUserId ≤ s.1) :
+    renderStore orc incl decls (parse orc incl decls files (sps.flatMap Spell.args ++ t.args)) =
+      " ".intercalate (("ok" :: renderStoreOpts
+        (applySets orc incl decls (initStore orc decls) (sps.flatMap Spell.sets)) firstUserId decls) ++
+        ("|" :: t.rest.map hexOf)) := by
+  rw [parse_render_declared orc incl decls files es hb sps hv t ht hu]
+  rfl
 
 /-! ## response files -/
 
@@ -227,11 +280,6 @@ theorem missing_file_fatal (tbl : Table) (acc : Accepts) (files : Files) (seen :
 
 /-! ## observations outside the property (Appendix B of the design: not claimed, recorded as what the code does) -/
 
-/-- a bare `-` where an option is expected is silently dropped -/
-theorem observation_bare_dash_dropped (tbl : Table) (acc : Accepts) (files : Files) (seen : List Str) (a : PAcc)
-    (args : List Str) : run tbl acc files seen a .look ([45] :: args) = run tbl acc files seen a .look args :=
-  run_bare_dash tbl acc files seen a args
-
 /-- a response-file reference in value position is taken literally as the value -/
 theorem observation_reference_in_value_position (tbl : Table) (acc : Accepts) (files : Files) (seen : List Str)
     (a : PAcc) (o : Opt) (f : Str) (args : List Str) :
@@ -296,5 +344,17 @@ example : scan exTbl (fun _ _ => true) [([102], [[45, 97]])] [[64, 102], [120]] 
   response_split_scan exTbl _ _ [] (by simp) [[120]] [[45, 97]] [102] rfl
     (by intro e he; simp only [List.mem_cons, List.mem_nil_iff, or_false] at he; subst he; simp [NoRef])
     (by simp [NoRef])
+
+/-! the hypotheses of `parse_render_declared` / `variables_after_parse` with a REAL declaration list (`build` evaluated,
+    the typed `Set` of the declared kinds as acceptance): `-n x --name=y p -a` on a string option n/name and a flag a -/
+example : build false exDecls = some exEs := exBuild
+
+example : parse [] false exDecls [] [[45, 110], [120], [45, 45, 110, 97, 109, 101, 61, 121], [112], [45, 97]] =
+    .done ⟨[(3, [120]), (3, [121])], [[112], [45, 97]]⟩ :=
+  parse_render_declared [] false exDecls [] exEs exBuild _ exDeclValid (Tail.plain [112] [[45, 97]])
+    ⟨Or.inr (by decide), by decide⟩ (by decide)
+
+example : (applySets [] false exDecls (initStore [] exDecls) [(3, [120]), (3, [121])]).get 3 = ["79"] ∧
+    (applySets [] false exDecls (initStore [] exDecls) [(3, [120]), (3, [121])]).get 4 = ["false"] := by decide
 
 end C10
